@@ -21,6 +21,7 @@ ASSUMPTIONS = [
 ]
 
 BASE = datetime.datetime(2001, 1, 1)
+BASE_FUTURE = datetime.datetime(2150, 1, 1)
 OBS0 = datetime.datetime(2000, 1, 3)
 NDATES = 40        # the machine's dates; the flat tie check uses up to 150
 DAY = datetime.timedelta(1)
@@ -34,8 +35,10 @@ class Store(object):
     """the real store + the publication log"""
 
     OPS = {
-        'publish': dict(step=st.sampled_from([0, 0, 1, 1, 2]), cells=st.one_of(st.lists(_cell, min_size=1, max_size=6), st.lists(_cell, min_size=10, max_size=45)),
+        'publish': dict(era=st.sampled_from([0, 1]), step=st.sampled_from([0, 0, 1, 1, 2]), cells=st.one_of(st.lists(_cell, min_size=1, max_size=6), st.lists(_cell, min_size=10, max_size=45)),
                         dense=st.sampled_from([False, False, True])),
+        'publish_many': dict(k=st.integers(17, 26), d=st.integers(0, NDATES - 1), vals=st.lists(st.sampled_from([1.0, 2.0, 3.0, 1.0, 2.0, None]), min_size=26, max_size=26),
+                             steps=st.lists(st.sampled_from([0, 0, 0, 1]), min_size=26, max_size=26), d2=st.integers(0, NDATES - 1)),
         'remerge': dict(k=st.integers(0, 20)),
         'read': dict(probe=st.integers(0, 2 * MAXSTAMP + 2), what=st.sampled_from([-1, -1, 0])),
         'read_all': dict(),
@@ -43,6 +46,7 @@ class Store(object):
     PRE = {'remerge': lambda m: len(m.versions) > 0, 'read': lambda m: m.store is not None, 'read_all': lambda m: m.store is not None}
 
     def __init__(self):
+        self.base = BASE
         self.store = None
         self.stamp = 0
         self.versions = []        # (stamp index, {date idx: value or None})
@@ -59,7 +63,7 @@ class Store(object):
     def _merge(self, k, what):
         from pyg_base import bi_merge, Bi
         s, cells = self.versions[k]
-        new = Bi(self._series(cells), BASE + s * DAY)
+        new = Bi(self._series(cells), self.base + s * DAY)
         self.store = call(what, bi_merge, self.store, new)
 
     def _expected(self, T, what):
@@ -68,14 +72,14 @@ class Store(object):
             by_stamp = {}
             for s, v in entries:          # merge order: the later one of a stamp wins
                 by_stamp[s] = v
-            vis = [(s, v) for s, v in sorted(by_stamp.items()) if BASE + s * DAY <= T]
+            vis = [(s, v) for s, v in sorted(by_stamp.items()) if self.base + s * DAY <= T]
             if vis:
                 exp[d] = vis[-1][1] if what == -1 else vis[0][1]
         return exp
 
     def _probe(self, p):
         # p even -> 12h before stamp p/2 ; p odd -> exactly stamp (p-1)/2 ; the last one is after every stamp
-        return BASE + (p // 2) * DAY - (H12 if p % 2 == 0 else datetime.timedelta(0))
+        return self.base + (p // 2) * DAY - (H12 if p % 2 == 0 else datetime.timedelta(0))
 
     def _read_and_compare(self, p, what):
         from pyg_base import bi_read
@@ -100,7 +104,7 @@ class Store(object):
             if not (g == e or (e is None and g != g)):
                 raise Violation('%s: observation %s reads %s, the publication log says %s; publications of that date (stamp, effective value) in merge order: %s'
                                 % (w, OBS0 + i * DAY, g, e, self.log[i]))
-        if any(BASE + s * DAY > T for s, _ in self.versions) and exp:
+        if any(self.base + s * DAY > T for s, _ in self.versions) and exp:
             self.flags.add('read_before_later_publication')
         if not exp:
             self.flags.add('read_before_everything')
@@ -109,7 +113,10 @@ class Store(object):
         return short([(s, {k: v for k, v in list(c.items())[:4]}) for s, c in self.versions], 300)
 
     # ---- operations
-    def op_publish(self, step, cells, dense):
+    def op_publish(self, step, cells, dense, era=0):
+        if not self.versions and era:
+            self.base = BASE_FUTURE          # stamps far in the future of any wall clock: an explicit stamp must be taken as given
+            self.flags.add('future_stamps')
         self.stamp = min(self.stamp + (step if self.versions else 0), MAXSTAMP)
         c = {}
         for i, v in cells:
@@ -135,6 +142,33 @@ class Store(object):
             entries.append((self.stamp, eff))
         if self.store is not None and len(self.store) > 16:
             self.flags.add('store>16_rows')
+
+    def op_publish_many(self, k, d, vals, steps, d2):
+        """k versions merged in ONE bi_merge call (a list of vintages), all touching observation date d: >= 17 rows of one date in one merge"""
+        from pyg_base import bi_merge, Bi
+        if not self.versions and d2 % 2:
+            self.base = BASE_FUTURE
+            self.flags.add('future_stamps')
+        news = []
+        for i in range(k):
+            self.stamp = min(self.stamp + (steps[i] if (self.versions or i) else 0), MAXSTAMP)
+            c = {d: vals[i]}
+            if i % 5 == 0:
+                c[d2] = vals[(i + 1) % 26]
+            self.versions.append((self.stamp, c))
+            news.append(Bi(self._series(c), self.base + self.stamp * DAY))
+            for j, v in c.items():
+                entries = self.log.setdefault(j, [])
+                eff = (entries[-1][1] if entries else None) if v is None else v
+                if entries and entries[-1][0] == self.stamp and entries[-1][1] != eff:
+                    self.flags.add('same_stamp_different_value')
+                entries.append((self.stamp, eff))
+        self.store = call('bi_merge(store, list of %i versions)' % k, bi_merge, self.store, news)
+        self.flags.add('many_versions_in_one_merge')
+        if len(self.store) > 16:
+            self.flags.add('store>16_rows')
+        for p in (2 * self.stamp + 1, 2 * MAXSTAMP + 2):
+            self._read_and_compare(p, -1)
 
     def op_remerge(self, k):
         k = k % len(self.versions)
@@ -192,7 +226,7 @@ SUBS = [
                rule='histories of publish (sparse or dense versions over 40 dates, stamps non-decreasing over <= 6 instants, ties frequent) / re-merge / read at a probe / read at every probe '
                     '(12h before, on, and after every stamp) with what in {-1, 0}; oracle: per-date publication log (NaN keeps the previous value, same stamp -> last merged, '
                     'first stamp > T -> absent). non-trivial = reads happened and some date has same-stamp publications with different values, a reversion, or a NaN after a value',
-               floor=0.3, class_floors={'store>16_rows': 0.3, 'same_stamp_different_value': 0.2, 'read_before_later_publication': 0.2}),
+               floor=0.3, class_floors={'store>16_rows': 0.3, 'same_stamp_different_value': 0.2, 'read_before_later_publication': 0.2, 'future_stamps': 0.15, 'many_versions_in_one_merge': 0.1}),
     Sub('same_stamp_ties', lambda tier: _tie_case(), run_ties, quick=150, thorough=1500,
         rule='2-5 full versions over 17-40 dates, at least two sharing the first stamp, then every probe is read; the store always exceeds 16 rows, where an unstable sort by '
              'stamp reorders same-stamp publications. non-trivial = some date has same-stamp publications with different values',
